@@ -165,9 +165,10 @@ ARITH = {z3.Z3_OP_ADD, z3.Z3_OP_SUB, z3.Z3_OP_MUL, z3.Z3_OP_DIV, z3.Z3_OP_UMINUS
 class Case:
     """One leaf of the case analysis: a solver holding pc + decided conditions."""
 
-    def __init__(self, solver, stats):
+    def __init__(self, solver, stats, expand_int=False):
         self.s = solver
         self.stats = stats
+        self.expand_int = expand_int
         self.int_reps = []      # list of (term, id)
         self.int_cache = {}
         self.apps = {}          # decl name -> list of (argkeys, atom id)
@@ -222,7 +223,15 @@ class Case:
             if r == z3.unsat:
                 self.int_cache[k] = uid
                 return uid
-        # is it a constant value under the assumptions?  (e.g. an index forced to 0)
+        for (u, uid) in self.int_reps:
+            self.stats["queries"] += 1
+            self.s.push()
+            self.s.add(t != -u)
+            r = self.s.check()
+            self.s.pop()
+            if r == z3.unsat:
+                self.int_cache[k] = ("neg", uid)
+                return ("neg", uid)
         uid = ("int", self.new_atom("int:" + _short(t)))
         self.int_reps.append((t, uid))
         self.int_cache[k] = uid
@@ -251,6 +260,26 @@ class Case:
         """Integer-sorted term used as a real: polynomial over canonical integer atoms."""
         if z3.is_int_value(t):
             return RF(Poly.const(t.as_long()))
+        if self.expand_int and z3.is_app(t):
+            kk = t.decl().kind()
+            if kk == z3.Z3_OP_ADD:
+                r = self.norm_int(t.arg(0))
+                for k in range(1, t.num_args()):
+                    r = r + self.norm_int(t.arg(k))
+                return r
+            if kk == z3.Z3_OP_SUB:
+                r = self.norm_int(t.arg(0))
+                for k in range(1, t.num_args()):
+                    r = r - self.norm_int(t.arg(k))
+                return r
+            if kk == z3.Z3_OP_UMINUS:
+                z = self.norm_int(t.arg(0))
+                return RF(-z.n, z.d)
+            if kk == z3.Z3_OP_MUL:
+                r = RF(Poly.const(1))
+                for k in range(t.num_args()):
+                    r = r * self.norm_int(t.arg(k))
+                return r
         if z3.is_app(t) and t.decl().kind() == z3.Z3_OP_MUL:
             nonconst = [t.arg(k) for k in range(t.num_args()) if not z3.is_int_value(t.arg(k))]
             if len(nonconst) >= 2:
@@ -265,6 +294,8 @@ class Case:
         rep = self.int_rep(t)
         if rep[0] == "ival":
             return RF(Poly.const(rep[1]))
+        if rep[0] == "neg":
+            return RF(-Poly.atom(rep[1]))
         return RF(Poly.atom(rep))
 
     def norm(self, t):
@@ -421,6 +452,7 @@ def prove(pc, hyps, goal, timeout_s=60, max_cases=4000):
         s.add(h)
     failures = []
     stack = []
+    mode = {"expand": False}
 
     def rec(depth):
         if time.time() - t0 > timeout_s:
@@ -430,7 +462,7 @@ def prove(pc, hyps, goal, timeout_s=60, max_cases=4000):
             raise GiveUp("too many cases")
         if s.check() == z3.unsat:
             return  # infeasible case
-        case = Case(s, stats)
+        case = Case(s, stats, expand_int=mode["expand"])
         try:
             for (a, b) in eqs:
                 ra, rb = case.norm(a), case.norm(b)
@@ -468,6 +500,17 @@ def prove(pc, hyps, goal, timeout_s=60, max_cases=4000):
 
     try:
         rec(0)
+        if failures:
+            # second attempt: distribute to_real over linear integer arithmetic
+            first = list(failures)
+            del failures[:]
+            mode["expand"] = True
+            try:
+                rec(0)
+            except GiveUp:
+                failures[:] = first
+            if failures:
+                failures[:] = first
     except GiveUp as g:
         return {"result": "unknown", "reason": "valueview: %s" % g, "backend": "valueview", "stats": stats,
                 "time_s": round(time.time() - t0, 3)}
